@@ -474,6 +474,10 @@ class ExprRun:
             d = classify_diff(exp, obs)
             if d is None:
                 self.stats["reordered"] += 1
+        if d is not None and "unjudged-outcome" in sim.flags:
+            # the outcome hinges on behaviour that nothing documents (see WhenAllRange in expr_model.py)
+            self.stats["unjudged"] = self.stats.get("unjudged", 0) + 1
+            d = None
         if d is not None and "when_any-deviation" in sim.flags:
             # the documented when_any result differs from the when_all-based implementation's in this scenario
             # (see WhenAny in expr_model.py): attribute the disagreement to that deviation only
